@@ -1191,6 +1191,42 @@ def check_learner_rebind(ns, vs, stats):
                             {"kind": "rebind", "class": "SkBaseTransformLearner"}, out[:3].tolist(), b.predict(X)[:3].tolist()))
 
 
+def check_siblings(name, ns, rng, vs, stats):
+    """Instances are separate objects: two instances built by the SAME constructor call (here: all defaults) share no
+    parameter object, so set_params on one changes exactly the keys of THAT object - what another instance, or a
+    later default-built one, reports does not move.  (A default argument evaluated once at definition time breaks this.)"""
+    cls = ns["cls"][name]
+    try:
+        a, b = cls(), cls()
+        pa = a.get_params(deep=True)
+        before = canon_params(b.get_params(deep=True), ns)
+    except Exception:
+        return
+    for k in sorted(pa):
+        try:
+            cur = a.get_params(deep=True)
+            if k not in cur:
+                continue
+            a.set_params(**{k: new_value(k, cur[k], a, ns, rng)})
+        except Exception:
+            continue
+        stats["evaluations"] += 1
+        stats["nontrivial"].add((name, "siblings", key_shape(k)))
+        try:
+            after = canon_params(b.get_params(deep=True), ns)
+            later = canon_params(cls().get_params(deep=True), ns)
+        except Exception:
+            continue
+        for who, got in (("another-instance", after), ("a-later-default-instance", later)):
+            if got != before:
+                diff = sorted(x for x in set(got) | set(before) if got.get(x) != before.get(x))
+                vs.append(Violation("%s.__init__:instances-share-a-parameter-object:%s" % (name, who),
+                                    "set_params(%s=...) on one default-built instance changes what %s reports" % (k, who.replace("-", " ")),
+                                    {"kind": "siblings", "class": name, "key": k}, {"changed_keys": diff[:6]},
+                                    "instances are independent: set_params changes only the object it is called on"))
+                return
+
+
 PRIORITY = [
     "SkBase.set_params:other-keys-changed", "SkBaseTransformLearner.set_params:returns-None",
     "SkBaseTransformLearner.set_params:value-not-set:method", "SkBaseTransformLearner.set_params:method_-bound-to-old-model",
@@ -1231,6 +1267,9 @@ def search(ctx, hints):
                 if i != j:
                     check_transfer(n, i, j, cfg[n], ns, vs, stats)
     check_learner_rebind(ns, vs, stats)
+    for n in names:
+        if n in ns["cls"]:
+            check_siblings(n, ns, rng, vs, stats)
     # histories on the real objects: single-key sets on advertised keys interleaved with clone / get
     for n in names:
         if n not in cfg or n not in ns["cls"]:
@@ -1334,6 +1373,8 @@ def replay(ctx, item):
         check_learner_rebind(ns, vs, stats)
     elif kind == "probe":
         vs.extend(probe_non_normalised())
+    elif kind == "siblings":
+        check_siblings(name, ns, random.Random(0), vs, stats)
     elif kind == "transfer":
         check_transfer(name, inp["config"], inp["config2"], cfg[name], ns, vs, stats)
     elif kind == "history":
